@@ -1068,6 +1068,49 @@ def apply_step(p, step, ctx):
     return q, "accepted", desc
 
 
+def distinct_steps(p, names, ctx, grid=(8, 6, 8), cap=40):
+    """Every DISTINCT resolved call (by its printable description) that the catalogue offers on
+    procedure p for the ops in `names` over a (k1, k2, k3) grid, as steps [op, k1, k2, k3].
+    Resolving does not run the primitive, so this is cheap; composite ops (stdlib/config groups,
+    whose resolvers call scheduling functions themselves) get a smaller grid; `cap` bounds ops
+    whose description contains a fresh-name counter."""
+    import json
+
+    ir = p.INTERNAL_proc()
+    st_, ex = collect(ir)
+    out = []
+    for name in sorted(set(names)):
+        o = OPS.get(name)
+        if o is None:
+            continue
+        if o["group"] == "stdlib":
+            g1, g2, g3 = min(grid[0], 4), 2, 2
+        elif name == "call_eqv":
+            g1, g2, g3 = min(grid[0], 4), 6, 4
+        else:
+            g1, g2, g3 = grid
+        seen = set()
+        for k1 in range(g1):
+            for k2 in range(g2):
+                for k3 in range(g3):
+                    if len(seen) >= cap:
+                        break
+                    try:
+                        r = o["resolve"](p, ir, st_, ex, k1, k2, k3, ctx)
+                    except (KeyboardInterrupt, SystemExit, MemoryError):
+                        raise
+                    except BaseException:  # noqa -- resolver itself failed: keep one such step per op
+                        r = (None, {"resolve-error": True})
+                    if r is None:
+                        continue
+                    d = json.dumps(r[1], sort_keys=True, default=str)
+                    if d in seen:
+                        continue
+                    seen.add(d)
+                    out.append([name, k1, k2, k3])
+    return out
+
+
 # ---- call_eqv with callee variants (used by C10; low weight elsewhere)
 
 
